@@ -31,6 +31,7 @@ type Program struct {
 	GOARCH   string
 	NumFuncs int
 	rootFuncs []*ssa.Function
+	lockSum   map[*ssa.Function]map[string]bool
 }
 
 const (
